@@ -387,13 +387,6 @@ end Claripy.AST
 namespace Claripy.AST
 
 /-! ### a rewriting constructor: the rule table applied at the root -/
-/-- the right-hand side of the first proven schema (`R.all`) whose left-hand side is this node and whose side condition holds -/
-def firstRule (t : Expr) : Option Expr :=
-  (proposals t).findSome? fun p => R.all.findSome? fun s => if (s.lhs p == t) && s.side p then some (s.rhs p) else none
-
-/-- node constructor that rewrites by the rule table (one step at the root, like `simplifications.simplify`) -/
-def mkRules (op : Op) (args : List Expr) : Expr := (firstRule (.app op args)).getD (.app op args)
-
 theorem firstRule_sound (t r : Expr) (h : firstRule t = some r) (env : Env) (hwt : eval env t ≠ .err) : eval env r = eval env t := by
   unfold firstRule at h
   obtain ⟨p, _, hp⟩ := List.exists_of_findSome?_eq_some h
